@@ -24,6 +24,7 @@ TABLE_OPS_FOR = {
     "C12": ["lookup", "rem"],
     "C19": ["lookup", "iter"],
     "C01": ["mark"],
+    "C14": ["show"],
     "C06": ["del", "clear"],
 }
 
@@ -56,6 +57,7 @@ def jobs(tier):
         add("clear", "h_clear", ns, ["Table_Resize", "Table_Clear"])
         add("del", "h_del", ns, ["Table_Del"])
         add("mark", "h_mark", ns, ["Table_Mark"])
+        add("show", "h_show", ns, ["Table_Show"], unwind=24)
     add("rem", "h_rem", 0, ["Table_Rem"], rc=["Table_Resize_Less:cv_resize_less"])      # rem on a table emptied by resize(t, 0): KeyError, not a division by zero
     for ns in [0] + sizes:
         # capacity 0: Table_Get compares the key pointer with a NULL slot array on every path; with cbmc's pointer checks on, everything
